@@ -205,3 +205,120 @@ func retransPart(t vcore.Failer) {
 		vcore.Report(t, runRetrans(n), map[string]any{"retrans": n})
 	}
 }
+
+// ---------------------------------------------------------------- REPORT messages back to back while the loop is busy
+//
+// The data plane reports when it measures, not when the UPF has time: while the event loop is inside a data-plane call,
+// several REPORT messages arrive one after the other - for the same sessions - and are handed to the loop's queue by the
+// listener before the first of them is served.  Each message's reports must reach the SMF with the values of that message.
+
+type BCase struct {
+	NSess int     `json:"nsess"`
+	Msgs  [][]int `json:"msgs"` // per REPORT message: the sessions it reports for (one report each, URR 1)
+}
+
+func runBackToBack(c BCase) (v *vcore.Violation) {
+	f, err := fullstack.NewFull(fullstack.FullOpts{Nodes: 1})
+	if err != nil {
+		panic("infrastructure: " + err.Error())
+	}
+	defer func() {
+		f.D.K.MainHold.Store(false)
+		if cerr := f.Close(); cerr != nil && v == nil {
+			v = vcore.Violatef("stop-hang", "%v", cerr)
+		}
+		if f.S.Dead != nil && v == nil {
+			v = vcore.Violatef(f.S.Dead.Key, "UPF fatal exit: %.600s", f.S.Dead.Msg)
+		}
+	}()
+	r := f.R
+	if o := r.Step(stack.Op{Kind: "assoc", Peer: 0, Node: 0, Sess: -1}); o.Dead != nil || o.Stuck {
+		return vcore.Violatef("prefix", "association failed")
+	}
+	var ups []uint64
+	for i := 0; i < c.NSess; i++ {
+		rules := []stack.RuleOp{{Verb: "create", Kind: "QER", ID: 1, QFI: 9}, {Verb: "create", Kind: "URR", ID: 1, Method: 2, Trig: 0x02},
+			{Verb: "create", Kind: "PDR", ID: 1, Prec: 1, URRs: []uint32{1}, QERs: []uint32{1}}}
+		o := r.Step(stack.Op{Kind: "est", Peer: 0, Node: 0, Sess: -1, CP: uint64(0x4000 + i), Rules: rules})
+		if o.Dead != nil || o.NewSess < 0 || !r.Sess[o.NewSess].Known {
+			return vcore.Violatef("prefix", "establishment %d not accepted", i)
+		}
+		ups = append(ups, r.Sess[o.NewSess].UP)
+	}
+	for s := range r.Pending {
+		r.Pending[s] = nil
+	}
+	f.D.K.MainHold.Store(true)
+	b, err := r.Build(stack.Op{Kind: "mod", Peer: 0, Sess: 0, Rules: []stack.RuleOp{{Verb: "update", Kind: "QER", ID: 1, QFI: 5}}}, 0x610001)
+	if err != nil {
+		panic(err)
+	}
+	if err := f.S.Send(0, b); err != nil {
+		panic(err)
+	}
+	for i := 0; i < 50000 && f.D.K.MainHeld.Load() == 0; i++ {
+		time.Sleep(100 * time.Microsecond)
+	}
+	if f.D.K.MainHeld.Load() == 0 {
+		return vcore.Violatef("stuck", "the Modification never reached the data plane")
+	}
+	want := map[uint64][]uint64{} // CP SEID -> total volumes in the order measured
+	for mi, ss := range c.Msgs {
+		var reps []simkernel.MReport
+		for _, si := range ss {
+			if si >= c.NSess {
+				continue
+			}
+			tot := uint64(mi+1)<<32 | ups[si]<<8 | 1
+			reps = append(reps, simkernel.MReport{SEID: ups[si], URR: 1, Usage: simkernel.Usage{Trigger: 1 << uint(1+mi%2), TotVol: tot, UlVol: uint64(mi + 1), DlVol: tot - uint64(mi+1),
+				TotPkt: uint64(10 * (mi + 1)), Start: time.Unix(1700000000+int64(mi), 0), End: time.Unix(1700000100+int64(mi), 0)}})
+			want[uint64(0x4000+si)] = append(want[uint64(0x4000+si)], tot)
+		}
+		if len(reps) == 0 {
+			continue
+		}
+		if err := f.D.K.SendReports(reps); err != nil {
+			panic(err)
+		}
+		if !f.D.K.Flush(10 * time.Second) {
+			return vcore.Violatef("mcast-not-consumed", "the listener did not take REPORT message %d while the loop was inside a data-plane call", mi)
+		}
+	}
+	f.D.K.MainHold.Store(false)
+	if err := f.S.Barrier(); err != nil {
+		if e, ok := err.(*stack.ErrDead); ok {
+			return vcore.Violatef(e.Info.Key, "UPF fatal exit: %.400s", e.Info.Msg)
+		}
+		return vcore.Violatef("stuck", "after the data-plane call returned: %v", err)
+	}
+	o := &stack.Obs{Rx: map[int][]stack.Datagram{}, Msgs: map[int][]message.Message{}, NewSess: -1}
+	r.Collect(o)
+	got := map[uint64][]uint64{}
+	for _, q := range o.SRRs {
+		for _, d := range stack.UsageDetails(q.Msg) {
+			tv := uint64(0)
+			if d.Vol != nil {
+				tv = d.Vol.TotalVolume
+			}
+			got[q.SEID] = append(got[q.SEID], tv)
+		}
+	}
+	for cp, w := range want {
+		g := got[cp]
+		if fmt.Sprint(g) != fmt.Sprint(w) {
+			return vcore.Violatef("values", "%d REPORT messages arrived while the event loop was inside a data-plane call: session with CP SEID %#x was measured %x (total volume, in order) and its SMF received %x", len(c.Msgs), cp, w, g)
+		}
+	}
+	return nil
+}
+
+func backToBackPart(t vcore.Failer) {
+	fixed := []BCase{{NSess: 1, Msgs: [][]int{{0}, {0}}}, {NSess: 2, Msgs: [][]int{{0, 1}, {1}, {0, 1}}}, {NSess: 3, Msgs: [][]int{{0, 1, 2}, {2, 1}, {0}, {0, 2}}}}
+	for _, c := range fixed {
+		vcore.E.Eval()
+		vcore.E.Class("report_messages_back_to_back_while_the_loop_is_busy")
+		vcore.E.NonTrivial(vcore.FP("b2b", vcore.JSON(c)))
+		vcore.E.Sample("back-to-back", c)
+		vcore.Report(t, runBackToBack(c), map[string]any{"back_to_back": c})
+	}
+}
